@@ -732,6 +732,9 @@ theorem lookup_pointwise (t : Table) (req : List Req) (res : List (Nat × Cells)
     cases h
     exact this
 
+/-- every requested label is present, in request order, once per occurrence – the result is never shorter
+than the request. Tracked status does not occur in the model (see `Req`), so this covers untracked
+simulants in the request. -/
 theorem result_index (t : Table) (req : List Req) (res : List (Nat × Cells)) (hc : Consistent req)
     (h : t.interpolate req = .ok res) : res.map (·.1) = req.map (·.label) := by
   rw [lookup_pointwise t req res hc h, List.map_map]; rfl
